@@ -542,6 +542,10 @@ pub fn entry_pool(level: u8) -> Vec<Entry> {
         // the same pattern on a second field: merged groups that tie in the optimiser's sorts
         e("g", st("a*")),
         e("g", st("?a")),
+        // a numeric-looking pattern on a plain key next to a str() key: whether the value is cast
+        // must not depend on the neighbouring key
+        e("g", st("1")),
+        e("str(g)", st("1*")),
     ];
     if level >= 1 {
         v.extend(vec![
